@@ -124,11 +124,15 @@ def import_cone(module):
     return seen
 
 
-def audit(module, theorems):
+def audit(module, theorems, extra=()):
     """grep the cone for forbidden constructs; #print axioms for every listed theorem.
     returns dict(ok, forbidden, axioms, missing)"""
     res = {'ok': True, 'forbidden': [], 'axioms': {}, 'bad_axioms': {}, 'missing': []}
-    for m in import_cone(module):
+    cone = []
+    for mm in [module] + list(extra):
+        for m in import_cone(mm):
+            if m not in cone: cone.append(m)
+    for m in cone:
         path = os.path.join(LEAN, *m.split('.')) + '.lean'
         body = strip_comments(open(path).read())
         for hit in FORBIDDEN.finditer(body):
@@ -136,6 +140,7 @@ def audit(module, theorems):
     probe = os.path.join(BUILD, 'axioms_%s_%d.lean' % (module.replace('.', '_'), os.getpid()))
     with open(probe, 'w') as f:
         f.write('import %s\n' % module)
+        for e in extra: f.write('import %s\n' % e)
         for t in theorems: f.write('#print axioms %s\n' % t)
     with Lock():
         p = sh(['lake', 'env', 'lean', probe], cwd=LEAN, timeout=1200)
